@@ -382,10 +382,10 @@ func (d *UserDelegate) MergedStates() []MergedState {
 // ---- conflict / merge / alive / ping delegates ----
 
 type ConflictRec struct {
-	At                 time.Time
-	Existing, Other    string
-	ExAddr, OtAddr     string
-	ExPort, OtPort     uint16
+	At              time.Time
+	Existing, Other string
+	ExAddr, OtAddr  string
+	ExPort, OtPort  uint16
 }
 
 type conflictDel struct{ n *SimNode }
@@ -496,13 +496,13 @@ func BaseConfig(name string) *memberlist.Config {
 }
 
 type NodeSpec struct {
-	Name   string
-	IP     string // default 10.0.0.<k>
-	Port   int    // default 7946
-	Mutate func(c *memberlist.Config)
+	Name                             string
+	IP                               string // default 10.0.0.<k>
+	Port                             int    // default 7946
+	Mutate                           func(c *memberlist.Config)
 	NoEvents, NoDelegate, NoConflict bool
 	WithMerge, WithAlive, WithPing   bool
-	Meta   []byte
+	Meta                             []byte
 }
 
 // Add creates and starts a real memberlist node.
